@@ -393,6 +393,47 @@ impl World {
                 self.set_quiescent(i)?;
             }
         }
+        // C06: the version of every array each replica shows before the exchange, with the descriptor
+        // revision it stands for, and which descriptor revisions are superseded (proper ancestors of some
+        // replica's leaves, or sealed by a resolution marker) according to the replicas' own trees
+        let mut pre_versions: Vec<Vec<(String, String, Vec<String>)>> = vec![];
+        let mut superseded: BTreeSet<(String, String)> = BTreeSet::new();
+        if self.is("C06") {
+            for i in 0..n {
+                // superseded descriptor revisions, from every array descriptor this replica knows
+                let objs = guard("get_all_objects", || self.reps[i].m.get_all_objects())?;
+                for au in objs.iter().filter(|o| o.starts_with('^')) {
+                    if let Some(t) = self.reps[i].m.verif_tree(au) {
+                        let parent: std::collections::BTreeMap<String, Option<String>> = t.iter().map(|(r, p, _)| (r.clone(), p.clone())).collect();
+                        for (r, p, _) in &t {
+                            // every revision that has a child (an edit or a resolution marker on top of it)
+                            if let Some(p) = p {
+                                let _ = r;
+                                superseded.insert((au.clone(), p.clone()));
+                            }
+                        }
+                        let _ = parent;
+                    }
+                }
+                let mut arrs = vec![];
+                if let Ok(d) = read_doc(&self.reps[i].m)? {
+                    model::doc_arrays(&d, &mut vec![], &mut arrs);
+                }
+                let mut v = vec![];
+                for (au, _ids) in arrs {
+                    let Ok(wr) = guard("get_winner", || self.reps[i].m.get_winner(&au))? else { continue };
+                    let mut leaves: Vec<String> = guard("get_conflicting", || self.reps[i].m.get_conflicting(&au))?.unwrap_or_default().into_iter().collect();
+                    leaves.push(wr);
+                    // each live leaf is a version of its own (the shown array is their merge)
+                    for l in &leaves {
+                        if let Ok(o) = inv::leaf_order(&self.reps[i].m, &au, l)? {
+                            v.push((au.clone(), l.clone(), o.iter().filter_map(|x| x.as_str().map(|s| s.to_string())).collect()));
+                        }
+                    }
+                }
+                pre_versions.push(v);
+            }
+        }
         for d in &plan.deliveries {
             match d {
                 gen::Op::Meld { .. } | gen::Op::MeldRefresh { .. } | gen::Op::FileCopy { .. } | gen::Op::Reopen { .. } | gen::Op::Refresh { .. } | gen::Op::Reload { .. } => {
@@ -492,7 +533,36 @@ impl World {
             self.bump("c07_final_states_still_in_conflict");
         }
         if self.is("C06") {
-            inv::check_c06(self, 0)?;
+            for i in 0..n {
+                inv::check_c06(self, i)?;
+                // every element of a pre-exchange version of an array that is still shown, whose object is
+                // not deleted, appears in the document after synchronisation
+                if let Ok(doc) = read_doc(&self.reps[i].m)? {
+                    let mut arrs = vec![];
+                    model::doc_arrays(&doc, &mut vec![], &mut arrs);
+                    let shown_arrays: BTreeSet<String> = arrs.iter().map(|(a, _)| a.clone()).collect();
+                    let shown = shown_ids(&doc);
+                    for (j, vers) in pre_versions.iter().enumerate() {
+                        for (au, rev, ids) in vers {
+                            // only versions that are concurrent (not an ancestor of, nor sealed by, anything any
+                            // replica held before the exchange) are covered by the statement
+                            if !shown_arrays.contains(au) || superseded.contains(&(au.clone(), rev.clone())) {
+                                continue;
+                            }
+                            for id in ids {
+                                let live = match guard("get_winner", || self.reps[i].m.get_winner(id))? {
+                                    Ok(w) => !model::rev_is_deleted(&w),
+                                    Err(_) => false,
+                                };
+                                if live && !shown.contains(id) {
+                                    return viol("C06", format!("element {:?} was in replica {}'s version of {} before synchronisation, its object is not deleted, but replica {} does not show it afterwards: {} [version {} ; superseded {:?}]", id, j, au, i, doc, rev, superseded.iter().filter(|(a, _)| a == au).map(|(_, r)| r.clone()).collect::<Vec<_>>()));
+                                }
+                            }
+                        }
+                    }
+                    self.bump("c06_post_sync_version_checks");
+                }
+            }
         }
         if self.is("C13") {
             for i in 0..n {
